@@ -233,3 +233,4 @@ def run(ctx):
     R.check("C12.1", "TERM-EQ", fpub, "x-only public key = x(32 BE)", tm.veq(sp.value(), be(T("proj", (pt, 0)), 32)), "bip340.pubkey: %s" % tm.show(sp.value())[:120])
     c03.check_scalar_mul(ctx, "C12.3")
     c03.check_point_add(ctx, "C12.3", "C12.3")
+    c03.check_helpers(ctx, "C12.3")
